@@ -18,7 +18,7 @@ RULE = ("all configurations of placed events up to the event bound: per file an 
         "of one and two digits (with and without $) defined or only used. Expected bytes follow from the bound definitions. "
         "state = one configuration; transition = one placed event; non-trivial = distinct (configuration, regime, use form)")
 ASSUMPTIONS = ["configurations the statement leaves open are not generated: one name exported twice by the same file through two means, "
-               "'.extern x' in a file that never defines x, local references inside .repeat, a file included twice",
+               "'.extern x' in a file that never defines x, a file included twice",
                "values: x = 11*(file number) for assignments, label addresses from the fixed-size layout"]
 EV = ["D", "E", "L", "G", "X", "A", "U", "R"]   # R = an unrelated '.repeat 2 { nop }' (a nested block compiled inside the file)
 REG = ["first", "last", "none"]
@@ -89,10 +89,7 @@ def admissible(seq):
         return False        # .extern x for a name the file never defines privately
     if seq.count("X") > 1 or seq.count("A") > 1 or seq.count("R") > 1:
         return False
-    if ("X" in seq or "A" in seq) and exp_def:
-        return False        # the same name exported twice by one file through two means
-    if "X" in seq and "A" in seq:
-        return False
+    # (one definition exported through two means - 'x::' plus '.extern x' or '.extern all' - is still one definition: generated)
     if defs > 2:
         return False
     return True
@@ -313,8 +310,8 @@ def check(case, r, tier):
         return
     if k == "local":
         for n in range(1, 6):
-            for ev in itertools.product("duS", repeat=n):
-                if "u" not in ev:
+            for ev in itertools.product("duSr" if n <= 4 else "duS", repeat=n):
+                if "u" not in ev and "r" not in ev:
                     continue
                 for use in (".word 1$", "br 1"):
                     run_local(list(ev), use, None, r)
@@ -349,6 +346,13 @@ def run_local(events, use, inc, r):
                 cur["uses"].append(addr)
                 pos.append((addr, cur))
                 addr += 2
+            elif e == "r":
+                # two uses from inside a '.repeat' body: the body belongs to the region it stands in
+                lines.append(".repeat 2 { %s }" % use)
+                for _ in range(2):
+                    cur["uses"].append(addr)
+                    pos.append((addr, cur))
+                    addr += 2
             elif e == "S":
                 n_s += 1
                 lines.append("%ss%d:" % (prefix, n_s))
